@@ -317,13 +317,15 @@ def r4(repo, res):
     cg = cfg_of(g)
     pk = g.args.kwarg.arg if g.args.kwarg else "params"
     reapply = [x for x in find_calls(g, "update") if x.args and ast.unparse(x.args[0]) == pk]
-    removed = cg.prune(decide_with({kind_name(g): "dump", "cn_solution": None}))
     stage = find_calls(g, "estimate_cn")
-    ok = bool(reapply) and bool(stage) and any(cg.is_reachable(cg.node_of(r), removed) and
-                                               cg.dominates(cg.node_of(r), cg.node_of(stage[0]), removed) for r in reapply)
-    res.ob("C17.R4", g, reapply[0] if reapply else g, ok,
-           expected="for a dump the user's parameters are re-applied to the restored profile before the first stage",
-           found="ok" if ok else "missing", clause="with the same parameters", key="params-reapplied")
+    for cn_given in (None, ["1", "1"]):
+        removed = cg.prune(decide_with({kind_name(g): "dump", "cn_solution": cn_given}))
+        ok = bool(reapply) and bool(stage) and any(cg.is_reachable(cg.node_of(r), removed) and
+                                                   cg.dominates(cg.node_of(r), cg.node_of(stage[0]), removed) for r in reapply)
+        res.ob("C17.R4", g, reapply[0] if reapply else g, ok,
+               expected="for a dump the user's parameters are re-applied to the restored profile before the first stage"
+                        + (" (also when the structure is given by the user: the reader replaces the profile and resets four parameters)" if cn_given else ""),
+               found="ok" if ok else "missing", clause="with the same parameters", key="params-reapplied" + ("|cn" if cn_given else ""))
 
 
 def r5(repo, res):
@@ -377,8 +379,205 @@ def r5(repo, res):
            found=found, clause="the same ... gene structures ... as genotyping the original alignment file", key="neutral-table-roundtrip")
 
 
+def r6(repo, res):
+    """The archive holds the tables as the loader produced them: whatever runs between the loader and the dump writer
+    (and receives the tables or the sample) leaves the dumped state unchanged. Decided by folding each such routine on
+    sample tables (variants inside and outside the reference bounds, insertions, positions without reference reads) and
+    comparing the dumped components with copies taken before."""
+    import copy
+
+    from sa.fold import Lifted
+
+    init = repo.func("sam::Sample.__init__")
+    wf, wc, w = writer_tuple(repo)
+    res.analysed(init)
+    c = cfg_of(init)
+    dc = find_calls(init, "_dump_alignments")
+    if not dc:
+        res.err("C17.R6", "dump call not found in Sample.__init__")
+        return
+    tables = [a.id for a in dc[0].args[1:] if isinstance(a, ast.Name)]
+    dn = c.node_of(dc[0])
+    between = []
+    for x in calls_in(init):
+        if x is dc[0] or not (isinstance(x.func, ast.Attribute) and isinstance(x.func.value, ast.Name) and x.func.value.id == "self"):
+            continue
+        if not any(isinstance(a, ast.Name) and a.id in tables for a in x.args):
+            continue
+        xn = c.node_of(x)
+        if xn != dn and c.path_exists(xn, dn):
+            between.append(x)
+    res.count("C17.R6:routines between loader and dump writer", len(between))
+    dumped_attrs = sorted({root(e) for e in w} - set(a_.arg for a_ in wf.args.args))
+    cov_init = repo.func("coverage::Coverage.__init__")
+
+    def sample_state():
+        norm = collections.defaultdict(list, {p: [(40, 30)] * (3 + p % 3) for p in range(96, 114)})
+        muts = collections.defaultdict(list, {
+            (103, "A>C"): [(40, 31)] * 2, (97, "G>T"): [(40, 32)] * 3,      # 97: outside the reference bounds, reference reads present
+            (118, "C>A"): [(40, 33)] * 2,                                   # outside the bounds, no reference reads at all
+            (105, "insTT"): [(40, 34)] * 2, (98, "insA"): [(40, 35)], (106, "delG"): [(40, 36)] * 2})
+        me = Obj(gene=Obj(chr_to_ref={p: p - 100 for p in range(100, 111)}, name="G"), profile=Obj(cn_region=None), _multi_sites={103: "AC>CT"},
+                 _indel_sites={(105, "insTT"): [1, 2], (106, "delG"): [0, 0]}, _dump_cn=collections.defaultdict(int, {200: 3}),
+                 _fusion_counter={}, _insertion_reads={}, _insertion_counts={}, phases={"r1": {103: "A>C"}}, name="S", coverage=None)
+        return norm, muts, me
+
+    for x in between:
+        tgt = repo.func_or_none("sam::Sample." + x.func.attr) if hasattr(repo, "func_or_none") else None
+        if tgt is None:
+            try:
+                tgt = repo.func("sam::Sample." + x.func.attr)
+            except Exception:
+                res.err("C17.R6", f"routine {x.func.attr} between loader and dump writer cannot be resolved")
+                continue
+        res.analysed(tgt, cov_init)
+        norm, muts, me = sample_state()
+        for a_ in dumped_attrs:
+            if a_ not in me.__dict__:
+                me.__dict__[a_] = {}
+        def plain(v):
+            if isinstance(v, Obj):
+                return {k_: plain(x_) for k_, x_ in v.__dict__.items()}
+            if isinstance(v, dict):
+                return {k_: plain(x_) for k_, x_ in v.items()}
+            if isinstance(v, (list, tuple)):
+                return [plain(x_) for x_ in v]
+            return v
+
+        before = copy.deepcopy((dict(norm), dict(muts), {a_: plain(me.__dict__[a_]) for a_ in dumped_attrs if a_ != "coverage"}))
+        try:
+            cinit = Lifted(cov_init)
+
+            def make_cov(*a, **k):
+                o = Obj()
+                cinit(o, *a, **k)
+                return o
+
+            fn = Lifted(tgt, funcs={"Coverage": make_cov})
+            args = [{tables[0]: norm, tables[1]: muts}.get(a.id) if isinstance(a, ast.Name) else None for a in x.args]
+            fn(me, *args)
+        except Unfoldable as e:
+            res.err("C17.R6", f"{x.func.attr} outside the folding language: {e}")
+            continue
+        except Raised as e:
+            res.ob("C17.R6", tgt, tgt, False, expected="runs on the sample tables", found=f"raises {e}", key=f"tables-unchanged:{x.func.attr}")
+            continue
+        after = (dict(norm), dict(muts), {a_: plain(me.__dict__[a_]) for a_ in dumped_attrs if a_ != "coverage"})
+        diff = []
+        for label, b, a in (("reference table", before[0], after[0]), ("variant table", before[1], after[1])):
+            for k in sorted(set(b) | set(a), key=str):
+                if b.get(k) != a.get(k) and (b.get(k) or a.get(k)):
+                    diff.append(f"{label}[{k}]: {len(b.get(k) or [])} -> {len(a.get(k) or [])} observations")
+        for a_ in before[2]:
+            if before[2][a_] != after[2][a_]:
+                diff.append(f"self.{a_} changed")
+        res.ob("C17.R6", tgt, tgt, not diff,
+               expected=f"{x.func.attr} runs before the dump writer: the tables and sample state the writer pickles afterwards are still what the loader produced "
+                        "(the replay feeds them to the same routine again)",
+               found="unchanged" if not diff else "; ".join(diff[:4]),
+               clause="genotyping the debug archive ... reproduces that run: the same ... gene structures ... scores", key=f"tables-unchanged:{x.func.attr}")
+
+
+def r7(repo, res):
+    """Writer -> reader -> coverage construction, folded whole on sample states: the Coverage object built from the
+    restored tables equals the one built from the loader's tables (observation multisets, indel table, neutral depth),
+    and name, fusion counters and multi-variant read phases come back."""
+    import copy
+
+    from sa.fold import Lifted
+
+    wf = repo.func("sam::Sample._dump_alignments")
+    rf = repo.func("sam::Sample._load_dump")
+    mk = repo.func("sam::Sample._make_coverage")
+    cov_init = repo.func("coverage::Coverage.__init__")
+    res.analysed(wf, rf, mk, cov_init)
+
+    def state(indel_support):
+        norm = collections.defaultdict(list, {p: [(40, 30)] * (2 + p % 3) + [(20, 10)] for p in range(98, 112)})
+        norm[99] = []
+        muts = collections.defaultdict(list, {(103, "A>C"): [(40, 31), (40, 31), (35, 12)], (105, "insTT"): [(40, 34)] * 2,
+                                              (106, "delG"): [(40, 36)] * 2, (98, "G>T"): [(40, 32)]})
+        prof = Obj(cn_region=None, display_format=False, debug_probe="", debug_novel=False, min_avg_coverage=2.0, gap=0.0)
+        gene = Obj(chr_to_ref={p: p - 100 for p in range(100, 111)}, name="G", genome="hg38")
+        me = Obj(gene=gene, profile=prof, name="SAMPLE", _multi_sites={}, _prefix="",
+                 _indel_sites={(105, "insTT"): [3, indel_support], (106, "delG"): [4, 0]},
+                 _dump_cn=collections.defaultdict(int, {200: 3, 201: 4}), _fusion_counter={"f": [1, 2]},
+                 phases={"a": {103: "A>C", 108: "_"}, "b": {103: "A>C"}, "c": {106: "delG", 103: "_"}}, coverage=None)
+        return norm, muts, me
+
+    def cov_of(me, norm, muts):
+        cinit = Lifted(cov_init)
+
+        def make_cov(*a, **k):
+            o = Obj()
+            cinit(o, *a, **k)
+            return o
+
+        Lifted(mk, funcs={"Coverage": make_cov})(me, norm, muts)
+        c = me.coverage
+        return ({p: {o: sorted(q) for o, q in ops.items()} for p, ops in c._coverage.items()}, c._indels, dict(c._cnv_coverage))
+
+    for support in (2, 0):
+        label = "some indel supported" if support else "no indel supported"
+        store = {}
+        marker = []
+
+        def pr(*a, sep=" ", end="\n", file=None):
+            marker.append(sep.join(str(x) for x in a))
+
+        io = {"open": lambda *a, **k: Obj(kind="text"), "gzip.open": lambda *a, **k: Obj(kind="gz"), "print": pr,
+              "pickle.dump": lambda o, fd: store.__setitem__("o", copy.deepcopy(o)), "pickle.load": lambda fd: copy.deepcopy(store["o"]),
+              "Counter": collections.Counter, "collections.Counter": collections.Counter, "os.path.abspath": lambda q: q}
+        try:
+            norm, muts, me = state(support)
+            # sample attributes the constructor derives from the input file: an undetectable genome build is (kind, None)
+            init = repo.func("sam::Sample.__init__")
+            for st_ in walk_local(init):
+                if isinstance(st_, ast.Assign) and any(isinstance(t_, ast.Attribute) and isinstance(t_.value, ast.Name) and t_.value.id == "self"
+                                                       and t_.attr == "genome" for tt in st_.targets for t_ in ast.walk(tt)):
+                    Evaluator({"self": me, "gene": me.gene, "path": "x.bam"}, funcs={"detect_genome": lambda q: ("sam", None)}).run([st_])
+            want = cov_of(me, copy.deepcopy(norm), copy.deepcopy(muts))
+            Lifted(wf, funcs=io)(me, "dbg.G", norm, muts)
+            me2 = Obj(gene=me.gene, profile=None, name=None, _multi_sites={}, _prefix="", _indel_sites=None, _dump_cn=None, _fusion_counter=None,
+                      phases=None, coverage=None)
+            back = Lifted(rf, funcs=io)(me2, "dbg.G.dump")
+            if not (isinstance(back, tuple) and len(back) == 2):
+                res.ob("C17.R7", rf, rf, False, expected="reader returns the two tables", found=str(type(back)), key=f"round-trip:{label}")
+                continue
+            got = cov_of(me2, back[0], back[1])
+        except Unfoldable as e:
+            res.err("C17.R7", f"dump writer/reader outside the folding language: {e}")
+            return
+        except Raised as e:
+            res.ob("C17.R7", rf, rf, False, expected="archive written and read back", found=f"raises {e}", key=f"round-trip:{label}")
+            continue
+        diff = []
+        if got[0] != want[0]:
+            ks = [p for p in sorted(set(got[0]) | set(want[0])) if got[0].get(p) != want[0].get(p)]
+            diff.append(f"observations differ at {ks[:4]}: original { {k: {o: len(q) for o, q in want[0].get(k, {}).items()} for k in ks[:2]} } "
+                        f"replay { {k: {o: len(q) for o, q in got[0].get(k, {}).items()} for k in ks[:2]} }")
+        if got[1] != want[1]:
+            diff.append(f"indel table: original {want[1]}, replay {got[1]}")
+        if got[2] != want[2]:
+            diff.append(f"neutral depth: original {want[2]}, replay {got[2]}")
+        if me2.name != me.name:
+            diff.append(f"sample name {me2.name!r}")
+        if me2._fusion_counter != me._fusion_counter:
+            diff.append(f"fusion counters {me2._fusion_counter}")
+        if sorted(map(str, (me2.phases or {}).values())) != sorted(str(v) for v in me.phases.values() if len(v) > 1):
+            diff.append(f"phases {me2.phases}")
+        if [m_.strip() for m_ in marker] != ["hg38"]:
+            diff.append(f"genome marker holds {marker}, the gene was loaded for hg38")
+        res.ob("C17.R7", wf, wf, not diff,
+               expected=f"{label}: coverage built from the restored tables = coverage built from the loader's tables; name, fusion counters, phases and genome marker restored",
+               found="equal" if not diff else "; ".join(diff),
+               clause="genotyping the debug archive written for a run reproduces that run", key=f"round-trip:{label}")
+
+
 def run(repo, res):
     r5(repo, res)
+    r6(repo, res)
+    r7(repo, res)
     r1(repo, res)
     r2(repo, res)
     r3(repo, res)
@@ -386,6 +585,26 @@ def run(repo, res):
 
 
 MUTANTS = [
+    dict(name="R6 original defect (reference lists aliased and extended before the dump)", module="sam", expect="C17.R6",
+         old='coverage.setdefault(pos, {})["_"] = list(cov)', new='coverage.setdefault(pos, {})["_"] = cov'),
+    dict(name="R6 coverage construction drains the variant table", module="sam", expect="C17.R6",
+         old="            coverage.setdefault(pos, {}).setdefault(mut, []).extend(cov)", new="            coverage.setdefault(pos, {}).setdefault(mut, []).extend(cov)\n            cov.clear()"),
+    dict(name="R7 writer keeps supported indels only (seeded C17_b2 shape)", module="sam", expect="C17.R7",
+         old="                    self._indel_sites,  # TODO: remove", new="                    {k: v for k, v in self._indel_sites.items() if v[1]},"),
+    dict(name="R7 reader restores qualities without multiplicity", module="sam", expect=["C17.R7", "C17.R2"],
+         old="        norm = {p: [q for q, n in c.items() for _ in range(n)] for p, c in norm.items()}", new="        norm = {p: [q for q, n in c.items()] for p, c in norm.items()}"),
+    dict(name="R7 genome marker from the detected build (seeded C17_b1 shape)", module="sam", expect="C17.R7",
+         edits=[("self.kind, _ = detect_genome(path)\n            self.genome = gene.genome", "self.kind, self.genome = detect_genome(path)"),
+                ("print(self.gene.genome, file=fd)", "print(self.genome, file=fd)")]),
+    dict(name="R4 re-application skipped for a user-given structure (seeded C17_b3 shape)", module="genotype", expect=["C17.R4", "C18.R1"],
+         old='    if kind == "dump":\n        profile.update(params)', new='    if kind == "dump" and not cn_solution:\n        profile.update(params)'),
+    dict(name="benign: dump written before the coverage is built", module="sam", kind="benign",
+         old="""            self._make_coverage(norm, muts)
+            if self.kind == "sam" and debug:
+                self._dump_alignments(f"{debug}.{gene.name}", norm, muts)""",
+         new="""            if self.kind == "sam" and debug:
+                self._dump_alignments(f"{debug}.{gene.name}", norm, muts)
+            self._make_coverage(norm, muts)"""),
     dict(name="R1 writer swaps fusion and indel tables", module="sam", expect="C17.R1",
          old="                    self._fusion_counter,\n                    self._indel_sites,  # TODO: remove",
          new="                    self._indel_sites,\n                    self._fusion_counter,"),
